@@ -142,4 +142,69 @@ theorem hostsOfMap_entries (es : List (Str × List Str)) :
     simp only [List.map_cons, hostMapEntry, hostsOfMap, ih]
     simp [List.map_map, Function.comp_def, sprint_str]
 
+theorem joinWith_clean (c d : Char) (hcd : c ≠ d) (l : List Str) (h : ∀ x ∈ l, ∀ ch ∈ x, ch ≠ d) :
+    ∀ ch ∈ joinWith c l, ch ≠ d := by
+  induction l with
+  | nil => simp [joinWith]
+  | cons a r ih =>
+    cases r with
+    | nil => simpa [joinWith] using h a (by simp)
+    | cons b r' =>
+      intro ch hch
+      simp only [joinWith, List.mem_append, List.mem_cons] at hch
+      rcases hch with hch | hch | hch
+      · exact h a (by simp) ch hch
+      · subst hch; exact hcd
+      · exact ih (fun x hx => h x (by simp [hx])) ch hch
+
+/-- one entry of the list form with either separator: `host=ip1,ip2` or the legacy `host:ip1,ip2` -/
+def hostEntrySep (e : Bool × Str × List Str) : Val :=
+  .str (String.ofList (e.2.1 ++ (if e.1 then ':' else '=') :: joinWith ',' e.2.2))
+
+/-- what the grammar asks of an entry: `=`-free host; with the legacy separator also a `:`-free host and `=`-free addresses -/
+def HostEntryOK (e : Bool × Str × List Str) : Prop :=
+  (∀ x ∈ e.2.1, x ≠ '=') ∧ e.2.2 ≠ [] ∧ (∀ ip ∈ e.2.2, ∀ ch ∈ ip, ch ≠ ',') ∧
+  (e.1 = true → (∀ x ∈ e.2.1, x ≠ ':') ∧ ∀ ip ∈ e.2.2, ∀ ch ∈ ip, ch ≠ '=')
+
+theorem hostsOfList_entriesSep (es : List (Bool × Str × List Str)) (acc : List (String × List Str))
+    (hok : ∀ e ∈ es, HostEntryOK e)
+    (hnd : (es.map fun e => e.2.1).Nodup)
+    (hdis : ∀ e ∈ es, String.ofList e.2.1 ∉ acc.map Prod.fst) :
+    hostsOfList (es.map hostEntrySep) acc = some (acc ++ es.map fun e => (String.ofList e.2.1, e.2.2)) := by
+  induction es generalizing acc with
+  | nil => simp [hostsOfList]
+  | cons e r ih =>
+    obtain ⟨colon, h, ips⟩ := e
+    obtain ⟨hk0, hne, hcomma, hleg⟩ := hok (colon, h, ips) (by simp)
+    have hd0 := hdis (colon, h, ips) (by simp)
+    simp only [List.map_cons, List.nodup_cons] at hnd
+    have hrest : hostsOfList (List.map hostEntrySep r) (acc ++ [(String.ofList h, ips)])
+        = some ((acc ++ [(String.ofList h, ips)]) ++ r.map fun e => (String.ofList e.2.1, e.2.2)) := by
+      apply ih _ (fun q hq => hok q (by simp [hq])) hnd.2
+      intro q hq
+      simp only [List.map_append, List.map_cons, List.map_nil, List.mem_append, List.mem_singleton, not_or]
+      refine ⟨hdis q (by simp [hq]), ?_⟩
+      intro heq
+      have := ofList_inj heq
+      apply hnd.1
+      rw [← this]
+      exact List.mem_map_of_mem (f := fun e : Bool × Str × List Str => e.2.1) hq
+    cases colon with
+    | false =>
+      simp only [List.map_cons, hostEntrySep, hostsOfList, sprint_str, String.toList_ofList, Bool.false_eq_true, if_false,
+        cutAt_append _ _ _ hk0, splitOn_joinWith _ _ hne hcomma, hostsAppend_absent _ _ _ hd0, hrest]
+      simp
+    | true =>
+      obtain ⟨hcol, hipeq⟩ := hleg rfl
+      have hnoeq : ∀ x ∈ h ++ ':' :: joinWith ',' ips, x ≠ '=' := by
+        intro x hx
+        simp only [List.mem_append, List.mem_cons] at hx
+        rcases hx with hx | hx | hx
+        · exact hk0 x hx
+        · subst hx; decide
+        · exact joinWith_clean ',' '=' (by decide) ips hipeq x hx
+      simp only [List.map_cons, hostEntrySep, hostsOfList, sprint_str, String.toList_ofList, if_true,
+        cutAt_clean _ _ hnoeq, cutAt_append _ _ _ hcol, splitOn_joinWith _ _ hne hcomma, hostsAppend_absent _ _ _ hd0, hrest]
+      simp
+
 end CV.Short
